@@ -12,7 +12,7 @@ import collections
 import time as _time
 
 from mc import harness, engine, schemes, probes
-from mc.chartgen import (skeletons, flatten, add_scheme_S, has_variant, describe, build_api, build_yaml,
+from mc.chartgen import (skeletons, flatten, add_scheme_S, has_variant, describe, build_api, build_yaml, build_api_rebuilt, build_api_moved,
                          to_yaml)
 
 from sismic.io import export_to_yaml, import_from_yaml
@@ -53,6 +53,9 @@ def make_spec(task):
         for kind in ('pre', 'post', 'inv'):
             t[kind] = ["C('t/%d:%s%d', v)" % (t['tid'], kind, i) for i in range(2)]
     return spec
+
+
+BUILDERS = {'api': build_api, 'yaml': build_yaml, 'rebuilt': build_api_rebuilt, 'moved': build_api_moved}
 
 
 def kind_of(o):
@@ -152,14 +155,54 @@ def run_on(R, hist, op):
         return ('crash:' + type(e).__name__, str(e)[:80])
 
 
+def _e_rotate(sc):
+    for i, t in enumerate(list(sc.transitions)):
+        parent = sc.parent_for(t.source)
+        if i % 2 == 0 and parent is not None:
+            sc.rotate_transition(t, new_source=parent)          # the transition now leaves the parent
+
+
+def _e_remove(sc):
+    for i, t in enumerate(list(sc.transitions)):
+        if i % 3 == 1:
+            sc.remove_transition(t)
+
+
+def _e_rename(sc):
+    leaves = [n for n in sc.states if not sc.children_for(n) and sc.parent_for(n) is not None]
+    if leaves:
+        sc.rename_state(leaves[0], leaves[0] + '_renamed')
+
+
+def _e_add(sc):
+    from sismic.model import Transition
+    for n in sc.states:
+        if kind_of(sc.state_for(n)) in ('B', 'C', 'O') and sc.parent_for(n) is not None:
+            sc.add_transition(Transition(n, sc.root, event='added', priority=2))
+            break
+
+
+# edits through the public API after the statechart has been exported (and queried) once: what is exported next
+# must be the statechart as it is now; the chart is round-tripped after every phase
+EDITS = [_e_rotate, _e_remove, _e_rename, _e_add]
+
+
 def work(task):
     spec = make_spec(task[:4])
     builder = task[4]
     diffs = []
     extra = collections.Counter()
     try:
-        sc1, objs1 = (build_api if builder == 'api' else build_yaml)(spec)
+        sc1, objs1 = BUILDERS[builder if builder != 'edited' else 'api'](spec)
         text = export_to_yaml(sc1)
+        if builder == 'edited':
+            for phase in EDITS[:-1]:
+                phase(sc1)
+                for d in compare_charts(sc1, import_from_yaml(export_to_yaml(sc1))):
+                    diffs.append({'kind': 'field' if '==' not in d else 'eq', 'hist': None, 'op': None,
+                                  'detail': 'after %s: %s' % (phase.__name__[3:], d)})
+            EDITS[-1](sc1)
+            text = export_to_yaml(sc1)
         sc2 = import_from_yaml(text)
     except Exception as e:
         return {'states': 0, 'transitions': 1, 'outcomes': {}, 'violations': [], 'nviol': 1,
@@ -168,6 +211,11 @@ def work(task):
                 'desc': describe(spec), 'task': task, 'extra': {}}
     for d in compare_charts(sc1, sc2):
         diffs.append({'kind': 'field' if '==' not in d else 'eq', 'hist': None, 'op': None, 'detail': d})
+    if builder == 'edited':
+        # the statechart no longer is the one the spec describes: structural comparison only
+        return {'states': 0, 'transitions': 1, 'outcomes': {'edited chart round-tripped': 1}, 'violations': [],
+                'nviol': len(diffs), 'found': diffs, 'desc': describe(spec) + ' [edited]', 'task': task,
+                'extra': {'comparisons': 1}}
     R1 = engine.Runner(spec, prebuilt=(sc1, objs1))
     R2 = engine.Runner(spec, prebuilt=(sc2, None))
 
@@ -327,8 +375,11 @@ def run(tier, seed):
     for nmin, nmax, k in PLAN[tier]:
         for tree in skeletons(nmin, nmax):
             for ivar in ((0, 1) if has_variant(tree) else (0,)):
-                for builder in ('api', 'yaml'):
+                for builder in ('api', 'yaml', 'edited'):
                     tasks.append((tree, 'asc', ivar, k, builder))
+                if ivar == 0:
+                    for builder in ('rebuilt', 'moved'):
+                        tasks.append((tree, 'asc', ivar, k, builder))
     tasks.sort(key=lambda t: -len(repr(t[0])))
     results = harness.pmap(work, tasks, chunksize=2)
     agg = harness.Agg()
@@ -406,7 +457,12 @@ def replay(data):
     else:
         task = schemes._tupled(data['task'])
         spec = make_spec(task[:4])
-        sc1, _ = (build_api if task[4] == 'api' else build_yaml)(spec)
+        sc1, _ = BUILDERS[task[4] if task[4] != 'edited' else 'api'](spec)
+        if task[4] == 'edited':
+            export_to_yaml(sc1)
+            for phase in EDITS:
+                phase(sc1)
+                print('after', phase.__name__[3:], ':', compare_charts(sc1, import_from_yaml(export_to_yaml(sc1)))[:3])
         sc2 = import_from_yaml(export_to_yaml(sc1))
         print('chart:', describe(spec))
         print('differences:', compare_charts(sc1, sc2)[:5])
